@@ -419,7 +419,13 @@ def triNearTie (f : Pt → Pt) (exact : Bool) (g : Geom) : Bool :=
     let mag := rabs (b.x - a.x) * rabs (c.y - a.y) + rabs (b.y - a.y) * rabs (c.x - a.x)
     let fx : Fx := (Fx.ofRat b.x - Fx.ofRat a.x) * (Fx.ofRat c.y - Fx.ofRat a.y) -
       (Fx.ofRat b.y - Fx.ofRat a.y) * (Fx.ofRat c.x - Fx.ofRat a.x)
-    if exact && fx.ok then false else rabs cp * 1099511627776 ≤ mag)
+    -- the transformed corners are themselves rounded (absolute error ~u·|coordinate| each), which moves the cross
+    -- product by up to that error times the triangle's extent — decisive when a corner differs from another by less
+    -- than an ulp of their magnitude (subnormal offsets next to coordinates of order 1)
+    let m := [a, b, c].foldl (fun m p => rmax m (rmax (rabs p.x) (rabs p.y))) 0
+    let span := rabs (b.x - a.x) + rabs (b.y - a.y) + rabs (c.x - a.x) + rabs (c.y - a.y)
+    if exact && fx.ok then false
+    else rabs cp * 1099511627776 ≤ mag || rabs cp * 281474976710656 ≤ m * span)
 
 def shapeOf (g : Geom) : String := (mapCoords (fun _ => ⟨0, 0⟩) g).str
 
